@@ -28,7 +28,9 @@ import (
 	"fmt"
 	"go/ast"
 	"go/constant"
+	"go/token"
 	"go/types"
+	"strings"
 )
 
 // segFails: the statements of a segment contain a no-return call (outside function literals).
@@ -39,7 +41,7 @@ func (ft *funcTr) segFails(nodes []ast.Node) bool {
 			if _, ok := n.(*ast.FuncLit); ok {
 				return false
 			}
-			if n != nil && ft.t.noReturnCall(n) != "" {
+			if n != nil && (ft.t.noReturnCall(n) != "" || ft.t.mayFailCall(n) != nil) {
 				found = true
 			}
 			return !found
@@ -168,4 +170,141 @@ func (ft *funcTr) segNoReturnRecv(id *ast.Ident) bool {
 	}
 	es, ok := ft.parents[c].(*ast.ExprStmt)
 	return ok && ft.t.noReturnCall(es) != ""
+}
+
+// ---------------------------------------------------------------- calls that may end in a no-return call
+//
+//	LibFunc.MayFail (with Config.FailMsgs, inside a Segment): the table function -- a library
+//	function, or a method of the translated package that is not itself translated, called on a
+//	pointer to a table struct -- may return normally or end in a no-return call (ts.parse ends in
+//	ts.Fatalf on an unterminated quote).  Its Coq denotation has the type res (exitm T), T the
+//	tuple of its Go results (unit for none).  A call is supported as a whole statement
+//	    f(args)      x, y := f(args)      x, y = f(args)
+//	and becomes  bindFO (f args) (fun '(x, y) => rest)  (bindFT at the top level of a function):
+//	FailedM msg ends the function with that value, exactly as a no-return call at this place
+//	would; DoneM r goes on with r.  What the callee does to state is not represented (the
+//	table's claim: it leaves the denoted fields alone).
+
+// curMayFail: set while Translate runs (hasJump has no receiver).
+var curMayFail func(n ast.Node) bool
+
+func isMayFailStmt(n ast.Node) bool { return curMayFail != nil && n != nil && curMayFail(n) }
+
+// mayFailCall: the call of a table function marked MayFail that the statement n consists of.
+func (t *translator) mayFailCall(n ast.Node) *ast.CallExpr {
+	var e ast.Expr
+	switch s := n.(type) {
+	case *ast.ExprStmt:
+		e = s.X
+	case *ast.AssignStmt:
+		if len(s.Rhs) != 1 || (s.Tok != token.ASSIGN && s.Tok != token.DEFINE) {
+			return nil
+		}
+		e = s.Rhs[0]
+	default:
+		return nil
+	}
+	c, ok := ast.Unparen(e).(*ast.CallExpr)
+	if !ok {
+		return nil
+	}
+	key, _, _ := t.libKey(c)
+	if key == "" || !t.cfg.Lib[key].MayFail {
+		return nil
+	}
+	return c
+}
+
+// mayFailStmt: the statement s, a call of a MayFail function, followed by rest.
+func (ft *funcTr) mayFailStmt(s ast.Stmt, rest []ast.Stmt, m mode, ind string) string {
+	t := ft.t
+	c := t.mayFailCall(s)
+	key, fn, recv := t.libKey(c)
+	lf := t.cfg.Lib[key]
+	if !t.cfg.FailMsgs {
+		t.fail(c, "call of %s, which may end in a no-return call, without Config.FailMsgs", key)
+	}
+	if !ft.inSegment() || ft.inLit > 0 {
+		t.fail(c, "call of %s, which may end in a no-return call, outside a Segment or inside a function literal", key)
+	}
+	if fn == nil || c.Ellipsis.IsValid() {
+		t.fail(c, "call of %s: not a function or method, or a ... argument", key)
+	}
+	sig := fn.Type().(*types.Signature)
+	if sig.Variadic() || len(c.Args) != sig.Params().Len() {
+		t.fail(c, "call of %s with a different number of arguments than parameters", key)
+	}
+	var pres []pre
+	parts := []string{lf.Coq}
+	if recv != nil {
+		p, v := ft.expr(recv, nil)
+		pres = append(pres, p...)
+		parts = append(parts, v)
+	}
+	for i, a := range c.Args {
+		p, v := ft.expr(a, sig.Params().At(i).Type())
+		pres = append(pres, p...)
+		parts = append(parts, v)
+	}
+	var lhs []ast.Expr
+	if as, ok := s.(*ast.AssignStmt); ok {
+		lhs = as.Lhs
+		if len(lhs) != sig.Results().Len() {
+			t.fail(s, "call of %s: %d results assigned to %d operands", key, sig.Results().Len(), len(lhs))
+		}
+	}
+	var pats, later []string
+	for _, l := range lhs {
+		if id, ok := ast.Unparen(l).(*ast.Ident); ok && id.Name == "_" {
+			pats = append(pats, "_")
+			continue
+		}
+		if _, ok := ast.Unparen(l).(*ast.IndexExpr); ok {
+			t.fail(s, "element store in the assignment of the results of %s", key)
+		}
+		tmp := ft.temp()
+		pats = append(pats, tmp)
+		later = append(later, ft.store(s, l, tmp, ind+"  "))
+	}
+	for len(pats) < sig.Results().Len() {
+		pats = append(pats, "_")
+	}
+	pat := "_"
+	switch len(pats) {
+	case 0:
+	case 1:
+		pat = pats[0]
+	default:
+		pat = "'(" + strings.Join(pats, ", ") + ")"
+	}
+	bindF := ""
+	switch m.kind {
+	case mTail:
+		bindF = "bindFT"
+	case mOut:
+		bindF = "bindFO"
+	default:
+		t.fail(s, "internal: call of %s in a jump-free block", key)
+	}
+	var b strings.Builder
+	b.WriteString(binds(pres, ind))
+	fmt.Fprintf(&b, "%s%s (%s) (fun %s =>\n", ind, bindF, strings.Join(parts, " "), pat)
+	for _, l := range later {
+		b.WriteString(l)
+	}
+	b.WriteString(strings.TrimRight(ft.block(rest, m, ind+"  "), "\n"))
+	b.WriteString(")\n")
+	return b.String()
+}
+
+// refuseMayFailExpr: a call of a MayFail function inside an expression (mayFailStmt builds the
+// term of the call that is the whole statement itself, so every call that reaches expr is nested).
+func (ft *funcTr) refuseMayFailExpr(e ast.Expr) {
+	c, ok := e.(*ast.CallExpr)
+	if !ok {
+		return
+	}
+	if key, _, _ := ft.t.libKey(c); key != "" && ft.t.cfg.Lib[key].MayFail {
+		ft.t.fail(c, "call of %s, which may end in a no-return call, inside an expression (supported: f(args), x, y := f(args), x, y = f(args) as a whole statement)", key)
+	}
 }
